@@ -19,6 +19,7 @@ func init() {
 			"R19.2 no loop-carried planning state: the loop header's phis are the range index and the merged status view only, and nothing reachable from the loop body writes a Coordinator field, a map reached through one, or a package variable (metrics objects excepted); " +
 			"R19.3 the merged view is write-only within the cycle: the Coordinator field holding it is read by no function reachable from the cycle, and the local accumulator flows only into the merge call and the final store; " +
 			"R19.4 every scale request and shard listing of an iteration is addressed to that iteration's own replica manager, in the iteration itself (not from a goroutine that outlives it). " +
+			"R19.1 also: a mutex taken inside the replica loop is released on every path before the same acquisition is reached again; R19.3 also: what the merge installs in the merged view is a copy, never the pointer found in the replica's view (which belongs to the explorer or to a shard's report and would be overwritten in place). " +
 			"Not decided: sharing through the explorer's long-lived status objects that are placed into plans by pointer (a value argument).",
 		Assumptions: []string{"go/types and go/ssa are correct (go.mod's language version decides loop-variable semantics)", "calls through injected function fields do not touch other replicas' state"}})
 }
@@ -141,6 +142,30 @@ func runC19(p *engine.Prog, r *engine.Report) {
 				if ok, _ := ffi.View(engine.EqAtom(t, "nil")).Implies(in.Block(), engine.EqAtom(t, "nil")); ok {
 					probs = append(probs, "method call on "+short(t)+", which is nil on every path to "+p.Rel(in.Pos())+" (a panic inside the cycle ends it for every replica)")
 				}
+			}
+		}
+		// a mutex taken while a replica is handled is released before that replica's iteration ends, whichever way it
+		// ends: a lock still held after a 'continue' blocks the next replica's iteration for ever
+		for _, in := range allInstrs(fn) {
+			lk, ok := in.(*ssa.Call)
+			if !ok || !loop.blocks[lk.Block().Index] {
+				continue
+			}
+			op, key := engine.LockOp(lk.Common())
+			if op != 1 {
+				continue
+			}
+			rel := func(x ssa.Instruction) bool {
+				if c2, ok := x.(ssa.CallInstruction); ok {
+					if _, isDefer := x.(*ssa.Defer); !isDefer {
+						o2, k2 := engine.LockOp(c2.Common())
+						return o2 == -1 && k2 == key
+					}
+				}
+				return false
+			}
+			if !fi.MustPass(lk, lk, rel) {
+				probs = append(probs, "the lock "+key+" taken at "+p.Rel(lk.Pos())+" can still be held when the next replica's iteration takes it again (an iteration ends without releasing it): every later replica blocks")
 			}
 		}
 		r.Check(len(probs) == 0, "R19.1-failure-isolation", ck, "replica loop in "+engine.FuncName(fn), "a failing replica is skipped (continue); the loop is never left early", strings.Join(probs, "; "))
@@ -325,6 +350,23 @@ func runC19(p *engine.Prog, r *engine.Report) {
 					if !back {
 						probs = append(probs, "the merge result is used for something else")
 					}
+					// the merged view owns its entries: what the merge installs is a copy, never the pointer found in
+					// the replica's view (that one belongs to a shard's status or to the explorer, and the merge
+					// overwrites entries in place when a later replica knows better)
+					for _, in := range allInstrs(callee) {
+						mu, ok := in.(*ssa.MapUpdate)
+						if !ok || mu.Map != ssa.Value(callee.Params[0]) {
+							continue
+						}
+						if src := entryOfMap(mu.Value, callee.Params[1], map[ssa.Value]bool{}); src != nil {
+							r.Add("R19.3-merged-view-write-only", ck+": owned entries in "+engine.FuncName(callee), "entry installed at "+p.Rel(mu.Pos()),
+								"a copy of the replica's entry (the merged view is overwritten in place by later replicas)",
+								"the replica's own entry is installed: overwriting it later changes the explorer's record or a shard's status that another replica reads", engine.Violated)
+						} else {
+							r.Add("R19.3-merged-view-write-only", ck+": owned entries in "+engine.FuncName(callee), "entry installed at "+p.Rel(mu.Pos()),
+								"a copy of the replica's entry (the merged view is overwritten in place by later replicas)", "not the pointer found in the replica's view", engine.Discharged)
+						}
+					}
 				case *ssa.Store:
 					if fa, ok := rr.Addr.(*ssa.FieldAddr); !ok || engine.FieldOf(fa) != fMerged {
 						probs = append(probs, "the accumulator is stored to "+fi.T(rr.Addr).S)
@@ -485,4 +527,36 @@ func isCounter(ph *ssa.Phi) bool {
 		}
 	}
 	return step
+}
+
+// entryOfMap: v is (through phis) an element read out of map m: a range value or a lookup. Returns that read.
+func entryOfMap(v, m ssa.Value, seen map[ssa.Value]bool) ssa.Value {
+	if seen[v] {
+		return nil
+	}
+	seen[v] = true
+	switch x := v.(type) {
+	case *ssa.Phi:
+		for _, e := range x.Edges {
+			if r := entryOfMap(e, m, seen); r != nil {
+				return r
+			}
+		}
+	case *ssa.Extract:
+		switch t := x.Tuple.(type) {
+		case *ssa.Next:
+			if rg, ok := t.Iter.(*ssa.Range); ok && rg.X == m && x.Index == 2 {
+				return x
+			}
+		case *ssa.Lookup:
+			if t.X == m && x.Index == 0 {
+				return x
+			}
+		}
+	case *ssa.Lookup:
+		if x.X == m {
+			return x
+		}
+	}
+	return nil
 }
